@@ -6,6 +6,7 @@ specification as oracle) -> verdict, evidence, replay files.
 Exit 0: property held on everything explored; 1: VIOLATION line printed; 2: infrastructure.
 """
 import argparse
+import re
 import collections
 import importlib
 import json
@@ -146,15 +147,28 @@ def main():
     # built apart from the property's own modules, so that a changed table breaks these obligations and nothing else
     table_obl = list(getattr(mod, "TABLE_OBLIGATIONS", []))
     table_err = None
+    table_info = None
     if table_obl:
         import tables
-        _, terr = tables.run(core.REPO, os.path.join(core.LEAN_DIR, "PsecModel", "Generated", "Tables.lean"))
+        tabs, terr = tables.run(core.REPO, os.path.join(core.LEAN_DIR, "PsecModel", "Generated", "Tables.lean"))
         tok, tout = core.lake_build([TABLES_MODULE])
         if terr:
-            table_err = "harness/tables.py could not read the tables from the source: " + terr
+            table_err = "harness/tables.py could not read the source: " + terr
         elif not tok:
-            errs = [l for l in tout.splitlines() if l.startswith("error:")]
-            table_err = "does not check against the tables regenerated from the source: " + " | ".join(errs)[:500]
+            # name the theorems whose proofs no longer go through (error line -> enclosing theorem)
+            src_lines = open(os.path.join(core.LEAN_DIR, "PsecModel", "Lemmas", "TablesAgree.lean")).read().splitlines()
+            failing = []
+            for m in re.finditer(r"TablesAgree\.lean:(\d+):\d+", tout):
+                for k in range(min(int(m.group(1)), len(src_lines)) - 1, -1, -1):
+                    mm = re.match(r"\s*theorem\s+(\S+)", src_lines[k])
+                    if mm:
+                        if mm.group(1) not in failing:
+                            failing.append(mm.group(1))
+                        break
+            table_err = ("Lemmas/TablesAgree does not check against the tables regenerated from the source; no longer provable: "
+                         + (", ".join(failing) or "see build output") + " (the module is compiled as a whole)")
+        table_info = {"recognised_in_source": sorted(k for k, v in (tabs or {}).items() if v is not None),
+                      "unavailable": sorted(k for k, v in (tabs or {}).items() if v is None)}
 
     # 2. obligations
     theorems = list(mod.OBLIGATIONS)
@@ -321,6 +335,7 @@ def main():
             "hypotheses": getattr(mod, "HYPOTHESES", []),
             "exhaustive": bool(getattr(mod, "EXHAUSTIVE", {}).get(a.tier, False)),
         },
+        "tables_tied_to_source": table_info,
         "independent_recheck": ({k: lc[k] for k in ("cmd", "rc", "wall_s")} | {"modules": len(lc["modules"])}) if lc else None,
         "implementation_line_coverage": core.coverage_report(),
         "assumptions": getattr(mod, "ASSUMPTIONS", []),
